@@ -180,6 +180,7 @@ fn main() {
                 "decoders" => grid::GridKind::Decoders,
                 "vecgrowth" => grid::GridKind::VecGrowth,
                 "crossarena" => grid::GridKind::CrossArena,
+                "retry" => grid::GridKind::Retry,
                 "box" => grid::GridKind::BoxChains,
                 k => {
                     eprintln!("MACHINERY: unknown grid kind {k}");
